@@ -60,12 +60,12 @@ Print Assumptions CS_enc_authenticate.
 
 (* replay_insert's outcome x the retry exemption: `already there` is success exactly for 0 < retry <= the retry limit
    with retries enabled, and EMUNGE_CRED_REPLAYED otherwise *)
-Theorem CS_dec_validate_replay : forall (cf : conf) (ins en : Z) (m : msg),
-  src_dec_validate_replay cf ins en m =
+Theorem CS_dec_validate_replay : forall (cf : conf) (ins en c : Z) (m : msg),
+  src_dec_validate_replay cf ins en c m =
   ((if (ins =? 0)%Z then 0
     else if (ins >? 0)%Z
          then (if cf_socket_retry cf && (0 <? m_retry m) && (m_retry m <=? c_retry_attempts) then 0 else e_cred_replayed)
-    else if (en =? 12)%Z then e_no_memory else e_snafu), m).
+    else if (en =? 12)%Z then e_no_memory else e_snafu), m, (if (ins =? 0)%Z then 1 else c)%Z).
 Proof. exact dec_validate_replay_is_source. Qed.
 Print Assumptions CS_dec_validate_replay.
 
@@ -75,47 +75,50 @@ Print Assumptions CS_dec_validate_replay.
 (* for EVERY state type and every interpretation of the stage functions, of m_msg_reset, m_msg_send and
    replay_remove: the stages in the model's order, the chain ends at the first failing stage, the reply is sanitised
    unless the error is expired/rewound/replayed, the reply is sent, and replay_remove is called exactly when the send
-   failed and every stage had succeeded *)
+   failed, every stage had succeeded and c->is_replay_new is set (this request added the record) *)
 Theorem CS_dec_process_msg_control : forall (S : Type) (ops : pipe_ops S) (s : S),
-  src_dec_process_msg ops s = pipe_control ops dec_stage_order soft_err true s.
+  src_dec_process_msg ops s = pipe_control ops dec_stage_order soft_err (Some "is_replay_new"%string) s.
 Proof. exact src_dec_process_msg_is_pipe. Qed.
 Print Assumptions CS_dec_process_msg_control.
 Theorem CS_enc_process_msg_control : forall (S : Type) (ops : pipe_ops S) (s : S),
-  src_enc_process_msg ops s = pipe_control ops enc_stage_order (fun _ => false) false s.
+  src_enc_process_msg ops s = pipe_control ops enc_stage_order (fun _ => false) None s.
 Proof. exact src_enc_process_msg_is_pipe. Qed.
 Print Assumptions CS_enc_process_msg_control.
 
 (* the same over abstract stage outcomes (fail n = Some e: stage n fails leaving code e): which stages ran, whether
    the reply was sanitised, sent, the replay record taken back, and the return code *)
-Theorem CS_dec_outcomes : forall (fail : string -> option N) (send_ok : bool),
-  src_dec_process_msg (trace_ops fail send_ok) t0 = outcomes dec_stage_order soft_err true fail send_ok.
+Theorem CS_dec_outcomes : forall (fail : string -> option N) (added send_ok : bool),
+  src_dec_process_msg (trace_ops fail added send_ok) t0 =
+  outcomes dec_stage_order soft_err (Some "is_replay_new"%string) fail added send_ok.
 Proof. exact src_dec_outcomes. Qed.
 Print Assumptions CS_dec_outcomes.
-Theorem CS_enc_outcomes : forall (fail : string -> option N) (send_ok : bool),
-  src_enc_process_msg (trace_ops fail send_ok) t0 = outcomes enc_stage_order (fun _ => false) false fail send_ok.
+Theorem CS_enc_outcomes : forall (fail : string -> option N) (added send_ok : bool),
+  src_enc_process_msg (trace_ops fail added send_ok) t0 = outcomes enc_stage_order (fun _ => false) None fail added send_ok.
 Proof. exact src_enc_outcomes. Qed.
 Print Assumptions CS_enc_outcomes.
 
-(* the record is taken back iff the reply of a SUCCESSFUL decode could not be sent; an encode never touches it *)
-Theorem CS_unplay_exactly_when : forall (fail : string -> option N) (send_ok : bool),
-  t_unplayed (snd (src_dec_process_msg (trace_ops fail send_ok) t0)) = negb send_ok && all_succeed fail dec_stage_order.
+(* the record is taken back iff the reply of a SUCCESSFUL decode THAT ADDED THE RECORD ITSELF could not be sent (added =
+   the request's c->is_replay_new when the tail reads it); an encode never touches it *)
+Theorem CS_unplay_exactly_when : forall (fail : string -> option N) (added send_ok : bool),
+  t_unplayed (snd (src_dec_process_msg (trace_ops fail added send_ok) t0)) =
+  negb send_ok && all_succeed fail dec_stage_order && added.
 Proof. exact src_dec_unplay_iff. Qed.
 Print Assumptions CS_unplay_exactly_when.
-Theorem CS_enc_never_unplays : forall (fail : string -> option N) (send_ok : bool),
-  t_unplayed (snd (src_enc_process_msg (trace_ops fail send_ok) t0)) = false.
+Theorem CS_enc_never_unplays : forall (fail : string -> option N) (added send_ok : bool),
+  t_unplayed (snd (src_enc_process_msg (trace_ops fail added send_ok) t0)) = false.
 Proof. exact src_enc_never_unplays. Qed.
 Print Assumptions CS_enc_never_unplays.
 
 (* the order of the checks, as run by the source when nothing fails *)
-Theorem CS_stage_order : forall send_ok,
-  t_log (snd (src_dec_process_msg (trace_ops (fun _ => None) send_ok) t0)) =
+Theorem CS_stage_order : forall added send_ok,
+  t_log (snd (src_dec_process_msg (trace_ops (fun _ => None) added send_ok) t0)) =
     ["dec_validate_msg"; "cred_create"; "dec_timestamp"; "dec_authenticate"; "dec_check_retry"; "dec_unarmor";
      "dec_unpack_outer"; "dec_decrypt"; "dec_validate_mac"; "dec_decompress"; "dec_unpack_inner"; "dec_validate_auth";
      "dec_validate_time"; "dec_validate_replay"]%string /\
-  t_log (snd (src_enc_process_msg (trace_ops (fun _ => None) send_ok) t0)) =
+  t_log (snd (src_enc_process_msg (trace_ops (fun _ => None) added send_ok) t0)) =
     ["enc_validate_msg"; "cred_create"; "enc_init"; "enc_authenticate"; "enc_check_retry"; "enc_timestamp";
      "enc_pack_outer"; "enc_pack_inner"; "enc_compress"; "enc_mac"; "enc_encrypt"; "enc_armor"; "enc_fini"]%string.
-Proof. exact (fun so => conj (src_dec_stage_order so) (src_enc_stage_order so)). Qed.
+Proof. exact (fun ad so => conj (src_dec_stage_order ad so) (src_enc_stage_order ad so)). Qed.
 Print Assumptions CS_stage_order.
 
 (* ------------------------------------------------------------------ *)
@@ -135,7 +138,7 @@ Theorem CS_dec_process_is_source : forall (cf : conf) (mem : N -> N -> bool) (pu
   let '(rc, s) := src_dec_process_msg (dec_ops hmac sha1 blk_dec zdecomp cf mem pu pg now send_ok) (dinit m rs) in
   let '(r, rs', k) := dec_process hmac sha1 blk_dec zdecomp cf mem rs m pu pg now in
   d_msg s = r /\ d_rs s = (if send_ok then rs' else dec_rollback rs' k) /\
-  rc = (if send_ok then match k with Some _ => 0 | None => -1 end else -1)%Z.
+  rc = (if send_ok && dec_accepts hmac sha1 blk_dec zdecomp cf mem pu pg now rs m then 0 else -1)%Z.
 Proof. exact (dec_process_is_source hmac sha1 blk_dec zdecomp). Qed.
 
 (* RetryModel's per-attempt use of dec_process / dec_rollback *)
@@ -190,8 +193,9 @@ Theorem CS_dec_stages_are_source : forall (cf : conf) (mem : N -> N -> bool) (pu
      let k := cred_rkey (oo_tag (d_out s)) (d_msg s) in
      let present := r_mem k (d_rs s) in
      st_validate_replay cf s =
-     let '(v, s') := lift s (src_dec_validate_replay cf (if present then 1 else 0) en (d_msg s)) None in
-     (v, if present then s' else with_rs s' (k :: d_rs s'))).
+     let '(r, c') := src_dec_validate_replay cf (if present then 1 else 0) en (b2z (d_new s)) (d_msg s) in
+     let '(v, s') := lift s r None in
+     (v, with_new (if present then s' else with_rs s' (k :: d_rs s')) (negb (c' =? 0)%Z))).
 Proof.
   exact (fun cf mem pu pg now s =>
     conj (st_validate_msg_is_source cf s)
@@ -217,14 +221,16 @@ Print Assumptions CS_enc_stages_are_source.
 
 (* non-vacuity, computed on the translated function itself: an expired credential whose reply cannot be sent - the
    chain stops at dec_validate_time, the reply keeps its fields (no reset), it is sent, and the replay record is NOT
-   taken back; a successful decode whose reply cannot be sent - the record is taken back *)
+   taken back; a successful decode that added the record and whose reply cannot be sent - the record is taken back; an
+   allowed replay (nothing added) whose reply cannot be sent - it is not *)
 Example CS_example :
   let expired n := if String.eqb n "dec_validate_time" then Some e_cred_expired else None in
-  src_dec_process_msg (trace_ops expired false) t0 =
+  src_dec_process_msg (trace_ops expired true false) t0 =
     ((-1)%Z, {| t_log := ["dec_validate_msg"; "cred_create"; "dec_timestamp"; "dec_authenticate"; "dec_check_retry";
                           "dec_unarmor"; "dec_unpack_outer"; "dec_decrypt"; "dec_validate_mac"; "dec_decompress";
                           "dec_unpack_inner"; "dec_validate_auth"; "dec_validate_time"]%string;
                 t_err := e_cred_expired; t_reset := false; t_sent := true; t_unplayed := false |}) /\
-  t_unplayed (snd (src_dec_process_msg (trace_ops (fun _ => None) false) t0)) = true /\
-  t_unplayed (snd (src_dec_process_msg (trace_ops (fun _ => None) true) t0)) = false.
+  t_unplayed (snd (src_dec_process_msg (trace_ops (fun _ => None) true false) t0)) = true /\
+  t_unplayed (snd (src_dec_process_msg (trace_ops (fun _ => None) false false) t0)) = false /\
+  t_unplayed (snd (src_dec_process_msg (trace_ops (fun _ => None) true true) t0)) = false.
 Proof. vm_compute. repeat split; reflexivity. Qed.
